@@ -19,7 +19,7 @@ IMPORTS = 'Base.PyData C17.Model C17.Check'
 
 TAGS = {
     1: 'operations that raise differ from model', 2: 'builder graph (node order / adjacency order / inputs) differs from model',
-    3: 'Workflow(builder) graph differs from model', 4: 'input_tasks / output_tasks differ from model',
+    3: 'Workflow(builder) graph differs from model', 4: 'input_tasks / output_tasks / get_upstream_tasks differ from model',
     5: 'workflow prepared by execute_workflow differs from model', 6: 'as_dask_dict differs from model',
     7: 'value returned by execute_workflow differs from model', 8: 'call log differs from model',
     11: 'execute_workflow result is not the sequential evaluation of the declared workflow '
@@ -28,11 +28,14 @@ TAGS = {
     13: 'the executed workflow does not have exactly the declared tasks and edges',
     14: 'Workflow(builder) does not have exactly the builder\'s tasks (in order) and edges',
     15: 'as_dask_dict lists predecessor keys in an order different from the node order',
-    16: 'another scheduler (synchronous / 1 worker / 8 workers) gives a different result or number of calls',
+    16: 'another scheduler (synchronous / 1 worker / 8 workers / the optimized dict / call_workflow with a recording '
+        'client) gives a different result or number of calls',
     17: 'as_dask_dict does not have one distinct key per task (with exactly the output task under results)',
+    20: 'get_upstream_tasks does not list exactly the strict ancestors',
+    19: 'the dict optimized for dask.distributed does not evaluate to the same result with the same calls',
 }
-CORR = (1, 2, 3, 4, 5, 6, 7, 8)
-ORACLE = (11, 12, 13, 14, 15, 16, 17)
+CORR = (1, 2, 3, 4, 5, 6, 7, 8, 9, 10)
+ORACLE = (11, 12, 13, 14, 15, 16, 17, 19, 20)
 # No open finding is left (C17-CONTEXT-REORDERS-PREDECESSORS fixed in /repo 4400919, C17-STATIC-KEY and
 # C17-STATIC-CALLABLE-TUPLE in d3e6e19): every oracle failure is a VIOLATION.  Tags 201 (a static input contains a key
 # string), 202 (... a callable-headed tuple), 203 (a context-taking predecessor precedes a plain one) only describe the
@@ -47,6 +50,8 @@ SAFE_STATICS = [
     {'t': [{'s': 'abc'}, {'f': 1}]}, {'l': [{'t': [{'i': 1}, {'l': [{'s': 'q'}]}]}]}, {'f': 1}, {'f': 2},
     {'t': [{'t': [{'i': 4}]}, {'n': None}]}, {'s': ''}, {'l': []},
     {'D': [[{'s': 'k'}, {'i': 1}], [{'i': 2}, {'l': [{'s': 'abc'}]}]]},
+    {'t': [{'n': None}, {'n': None}, {'i': 5}]}, {'l': [{'n': None}, {'t': [{'n': None}, {'l': [{'n': None}]}]}]},
+    {'D': [[{'s': 'k'}, {'n': None}]]},
 ]
 UNSAFE_STATICS = [
     {'s': 'results'}, {'t': [{'s': 'results'}]}, {'l': [{'s': 'results'}]}, {'t': [{'f': 1}, {'s': 'xyz'}]},
@@ -368,7 +373,8 @@ class Exporter:
         self.context = context
         self.strings = ct.Names()
         self.strings.get('results')          # PV.C17.Model.results = 1
-        self.atoms = ct.Names(start=1000)
+        self.atoms = ct.Names(start=1000)      # numbers (not scattered by optimize.py)
+        self.objs = ct.Names(start=2000)       # None, the context, any other object (scattered)
 
     def sval(self, v):
         if isinstance(v, str):
@@ -376,7 +382,7 @@ class Exporter:
         if isinstance(v, Marker):
             return f'(SAtom {ct.pos(v.j)})'
         if v is self.context:
-            return f"(SAtom {self.atoms.p('<context>')})"
+            return f"(SAtom {self.objs.p('<context>')})"
         if type(v) is tuple:
             return '(STuple ' + ct.lst([self.sval(x) for x in v]) + ')'
         if type(v) is list:
@@ -391,8 +397,12 @@ class Exporter:
             j = None
         if j is not None:
             return f'(SFun {ct.pos(j)})'
-        # ints, None and anything unknown: an opaque atom identified by type and repr
-        return f"(SAtom {self.atoms.p(type(v).__name__ + ':' + repr(v))})"
+        if isinstance(v, Fut):
+            return '(SFut ' + self.sval(v.value) + ')'
+        if isinstance(v, (int, float)):
+            return f"(SAtom {self.atoms.p(type(v).__name__ + ':' + repr(v))})"
+        # None and anything unknown: an opaque object identified by type and repr
+        return f"(SAtom {self.objs.p(type(v).__name__ + ':' + repr(v))})"
 
     def svals(self, vs):
         return ct.lst([self.sval(v) for v in vs])
@@ -417,6 +427,28 @@ def static_value(s, fam):
     if k == 'D':
         return {static_value(a, fam): static_value(b, fam) for a, b in v}
     raise ValueError(s)
+
+
+class Fut:
+    """What the recording client's scatter() returns instead of a distributed Future."""
+    def __init__(self, value):
+        self.value = value
+
+
+class RecClient:
+    def scatter(self, value, hash=True):
+        return Fut(value)
+
+
+def unpack(v):
+    """The scheduler side of scatter: futures inside tuples / lists / dict values replaced by their data."""
+    if isinstance(v, Fut):
+        return v.value
+    if type(v) in (tuple, list):
+        return type(v)(unpack(x) for x in v)
+    if type(v) is dict:
+        return {k: unpack(x) for k, x in v.items()}
+    return v
 
 
 class RecDispatcher:
@@ -543,6 +575,8 @@ def run_impl(spec, modname=None, perturb=None):
     o_wf = observe_graph(P, wf, table, ex)
     ins = [tid_of(t) for t in wf.input_tasks]
     outs = [tid_of(t) for t in wf.output_tasks]
+    wpos = {id(t): k for k, t in enumerate(wf.tasks)}
+    ups_t = ct.lst([ct.lst([ct.nat(wpos[id(u)]) for u in wf.get_upstream_tasks(t)]) for t in wf.tasks])
     disp = RecDispatcher(P['local_dask'].run)
     fam.log.clear()
     with P['threaded']():
@@ -595,6 +629,59 @@ def run_impl(spec, modname=None, perturb=None):
             except Exception:
                 rt = 'ROther'
             alts.append(ct.pair(rt, ct.nat(len(fam.log))))
+    scat_t, opt_t, steps_t = 'None', 'None', '[]'
+    if d is not None and rkind == 'ok':      # (dask.optimization.fuse does not terminate on a cyclic graph)
+        from pharmpy.workflows.dispatchers.local_dask import optimize as opt_mod
+        client = RecClient()
+        scat = {k: opt_mod._scatter_computation(Fut, client, v) for k, v in d.items()}
+        import unittest.mock
+        with unittest.mock.patch('dask.distributed.Future', Fut):
+            od = opt_mod.optimize_task_graph_for_dask_distributed(client, d)
+        dterm2 = lambda dd: '(Some ' + ct.lst([ct.pair(ex.strings.p(k), ex.sval(v)) for k, v in dd.items()]) + ')'
+        scat_t, opt_t = dterm2(scat), dterm2(od)
+        steps = [f'(FInline {ex.strings.p(k)})' for k in d if k not in od]
+        steps += [f'(FAlias {ex.strings.p(k)} {ex.strings.p(v)})' for k, v in od.items()
+                  if isinstance(v, str) and k in d and v not in d]
+        steps_t = ct.lst(steps)
+        info_fused = sum(1 for k in d if k not in od)
+        # the optimized dict on real dask, futures unpacked as the distributed scheduler would
+        fam.log.clear()
+        try:
+            r2 = dask.get({k: unpack(v) for k, v in od.items()}, 'results')
+            rt = f'(ROk {ex.sval(r2)})'
+        except RuntimeError as e:
+            rt = 'RCycle' if 'Cycle detected' in str(e) else 'ROther'
+        except Exception:
+            rt = 'ROther'
+        alts.append(ct.pair(rt, ct.nat(len(fam.log))))
+        # dispatchers/local_dask/call.py: the real call_workflow on the original workflow with a recording client
+        # (get_client / secede / rejoin of dask.distributed replaced; client.get = synchronous dask.get on the
+        # optimized dict it is given, futures unpacked)
+        from pharmpy.workflows.dispatchers.local_dask import call as call_mod
+
+        class CallClient(RecClient):
+            def get(self, dsk, key, sync=False):
+                self.key = key
+                return dask.get({k: unpack(v) for k, v in dsk.items()}, key)
+
+            def gather(self, x):
+                return x
+        cc = CallClient()
+        fam.log.clear()
+        try:
+            with unittest.mock.patch('dask.distributed.Future', Fut), \
+                    unittest.mock.patch('dask.distributed.get_client', lambda: cc), \
+                    unittest.mock.patch('dask.distributed.secede', lambda: None), \
+                    unittest.mock.patch('dask.distributed.rejoin', lambda: None):
+                r3 = call_mod.call_workflow(wf, 'c17-unique-name', context)
+            rt = f'(ROk {ex.sval(r3)})' if cc.key == 'c17-unique-name' else 'ROther'
+        except RuntimeError as e:
+            rt = 'RCycle' if 'Cycle detected' in str(e) else 'ROther'
+        except Exception:
+            rt = 'ROther'
+        alts.append(ct.pair(rt, ct.nat(len(fam.log))))
+    else:
+        info_fused = 0
     alt_t = ct.lst(alts)
     tasks_t = ct.lst([f"(mkTask {ct.pos(i + 1)} {ct.pos(i + 1)} {ct.pos(t['fn'])} {ex.svals(table[i].task_input)} "
                       f"{ct.boolean(spec['fns'][t['fn'] - 1]['ctx'])})" for i, t in enumerate(spec['tasks'])])
@@ -602,12 +689,14 @@ def run_impl(spec, modname=None, perturb=None):
     log_t = ct.lst([ct.pair(ct.pos(j), ex.svals(args)) for j, args in log])
     term = ('(mkCase ' + tasks_t + ' ' + ct.nat(spec['nb']) + '\n ' + ops_t + '\n ' + ex.sval(context) + ' '
             + ct.lst([ct.nat(i) for i in errs]) + '\n ' + o_builder + '\n ' + o_wf + '\n '
-            + ct.lst([ct.pos(i) for i in ins]) + ' ' + ct.lst([ct.pos(i) for i in outs]) + '\n ' + o_prep + '\n '
-            + keys + '\n ' + dterm + '\n ' + result + '\n ' + log_t + '\n ' + alt_t + ')')
+            + ct.lst([ct.pos(i) for i in ins]) + ' ' + ct.lst([ct.pos(i) for i in outs]) + ' ' + ups_t + '\n ' + o_prep + '\n '
+            + keys + '\n ' + dterm + '\n ' + result + '\n ' + log_t + '\n ' + alt_t
+            + '\n ' + scat_t + '\n ' + opt_t + '\n ' + steps_t + ')')
     info = {'n': len(wf), 'edges': sum(len(wf.get_successors(t)) for t in wf.tasks), 'result': rkind,
             'errs': len(errs), 'ncalls': len(log),
             'maxpreds': max([len(wf.get_predecessors(t)) for t in wf.tasks] or [0]),
             'ctx_tasks': sum(1 for t in wf.tasks if spec['fns'][spec['tasks'][tid_of(t) - 1]['fn'] - 1]['ctx']),
+            'fused': info_fused,
             'twins': len(spec['tasks']) - len({(t.get('name', i), t['fn'], json.dumps(t['inputs'])) for i, t in enumerate(spec['tasks'])})}
     fam.close()
     return term, info
@@ -765,6 +854,7 @@ def run(ctx):
         'ops_raising_ValueError': sum(i['errs'] for i in infos),
         'with_context_tasks': sum(1 for i in infos if i['ctx_tasks'] > 0),
         'with_twin_tasks': sum(1 for i in infos if i['twins'] > 0),
+        'with_fused_tasks': sum(1 for i in infos if i['fused'] > 0), 'tasks_fused': sum(i['fused'] for i in infos),
         'static_input_with_key_string_quoted': sum(1 for v in verdicts if 201 in v),
         'static_input_with_callable_tuple_quoted': sum(1 for v in verdicts if 202 in v),
         'context_predecessor_before_plain_one': sum(1 for v in verdicts if 203 in v),
